@@ -36,6 +36,18 @@ def takeLists? (k : Nat) (toks : List String) : Option (List (List Nat) × List 
       let (ls, rest') ← takeLists? k rest
       pure (l :: ls, rest')
 
+/-- roots of one line: `-` or comma-separated `r` / `r!k` (call on output node `r` during which the
+    user node `k` panics) -/
+def rootList? (s : String) : Option (List (Nat × Option Nat)) :=
+  if s == "-" then some [] else
+    (s.splitOn ",").mapM fun t =>
+      match t.splitOn "!" with
+      | [r] => r.toNat?.map fun r => (r, none)
+      | [r, k] => match r.toNat?, k.toNat? with
+        | some r, some k => some (r, some k)
+        | _, _ => none
+      | _ => none
+
 def pgOf (bound : Nat) (live : List Bool) (inc outg : List (List Nat)) : PG :=
   let liveA := live.toArray; let incA := inc.toArray; let outA := outg.toArray
   { bound := bound, live := fun n => liveA.getD n false, inc := fun n => incA.getD n [], outg := fun n => outA.getD n [] }
@@ -53,22 +65,29 @@ def procLine (args : List String) : String :=
       | some live, some (inc, rest1) =>
         match takeLists? bound rest1 with
         | some (outg, [iv, rs]) =>
-          match natList? iv, natList? rs with
+          match natList? iv, rootList? rs with
           | some init, some roots =>
             if init.length ≠ bound then "bad-op" else
             let g := pgOf bound live inc outg
             let initA := init.toArray
             let buf0 : Nat → Nat := fun n => initA.getD n 0
-            let rec calls (rs : List Nat) (p : Proc) (buf : Array Nat) (acc : List String) : List String :=
+            let rec calls (rs : List (Nat × Option Nat)) (p : Proc) (buf : Array Nat) (acc : List String) : List String :=
               match rs with
               | [] => acc.reverse
-              | r :: rs' =>
+              | (r, none) :: rs' =>
                 match process hashNode g p (fun n => buf.getD n 0) r with
                 | none => calls rs' p buf ("panic" :: acc)
                 | some res =>
                   let buf' := (List.range bound).map res.buf |>.toArray   -- memoise the buffer function
                   let lg := "|".intercalate (res.log.map fun (n, ins) => s!"{n}<{showList ins}")
                   calls rs' res.proc buf' (s!"{if lg.isEmpty then "-" else lg}={showList buf'.toList}" :: acc)
+              | (r, some k) :: rs' =>
+                match processAbort hashNode g p (fun n => buf.getD n 0) r k with
+                | none => calls rs' p buf ("panic" :: acc)
+                | some (res, unwound) =>
+                  let buf' := (List.range bound).map res.buf |>.toArray
+                  let lg := "|".intercalate (res.log.map fun (n, ins) => s!"{n}<{showList ins}")
+                  calls rs' res.proc buf' (s!"{if unwound then "unwound:" else ""}{if lg.isEmpty then "-" else lg}={showList buf'.toList}" :: acc)
             let cs := calls roots Proc.empty ((List.range bound).map buf0 |>.toArray) []
             " ".intercalate (cs ++ [s!"src:{showList (sources g)}", s!"snk:{showList (sinks g)}"])
           | _, _ => "bad-op"
